@@ -215,7 +215,7 @@ RULES = {
     "C16.length-check": "save_scsv interpreted on columns of unequal length raises SCSVError before the output file is opened",
     "C16.errors": "ValueError from per-cell parsing and from the strict zip is converted to SCSVError; the partially written file is unlinked on that path",
     "C16.siblings": "writer and reader use the same cell parser, keys and defaults; terse type names resolve into SCSV_TYPEMAP; header keys written ⊇ keys read",
-    "C16.substitution": "on save the missing marker replaces a cell only under equality with the typed fill value (or both NaN)",
+    "C16.substitution": "save_scsv interpreted per (type, datum vs typed fill) class: the marker replaces a cell exactly when the datum equals the typed fill (or both are NaN); the cell parser maps the marker back to the fill",
     "C16.yaml-emission": "schema values interpolated into the YAML header are validated identifiers/table members or pass through a YAML quoting function",
 }
 
@@ -486,23 +486,44 @@ def line_classes(ctx, mod, read):
 
 
 def substitution(ctx, mod, fns):
+    """save_scsv's row construction interpreted (file, header writer, csv writer and cell validation stubbed) on one representative per
+    (type, relation of the datum to the typed fill): only a datum equal to its field's typed fill (or NaN under a NaN fill) becomes the marker."""
+    from ..values import Native, Record
+    from ..interp import RaiseSig
+    from ..npmodel import NAN
+    from ..alg import lift
     fn = fns["save_scsv"]
-    cfg = flow.CFG(fn)
-    appends_missing = [n for n, s in cfg.stmt.items() if isinstance(s, ast.Expr) and isinstance(s.value, ast.Call) and isinstance(s.value.func, ast.Attribute)
-                       and s.value.func.attr == "append" and any(isinstance(x, ast.Subscript) and isinstance(x.slice, ast.Constant) and x.slice.value == "missing" for x in ast.walk(s.value))]
-    ok = bool(appends_missing)
-    for n in appends_missing:
-        # the innermost enclosing If test must compare the datum with the typed fill, or test both for NaN
-        st = cfg.stmt[n]
-        conds = [i for i in ast.walk(fn) if isinstance(i, ast.If) and st in i.body]
-        good = False
-        for c in conds:
-            t = ast.unparse(c.test)
-            cmp_fill = any(isinstance(x, ast.Compare) and any(isinstance(o, ast.Eq) for o in x.ops) for x in ast.walk(c.test))
-            nan_both = t.count("isnan") >= 2
-            good = good or cmp_fill or nan_both
-        ok = ok and good
-    ctx.ob("C16.substitution", "save_scsv:missing marker only under equality with the typed fill", ok, f"{len(appends_missing)} substitution site(s)", L(mod, fn, ctx))
+    loc = L(mod, fn, ctx)
+    schema = {"delimiter": ",", "missing": "-", "fields": [{"name": "a", "type": "integer", "fill": -1}, {"name": "b", "type": "string", "fill": "NA"},
+                                                          {"name": "c", "type": "float", "fill": "NaN"}, {"name": "d", "type": "float", "fill": 9.5},
+                                                          {"name": "e", "type": "boolean"}, {"name": "f", "type": "integer", "fill": "7"}]}
+    data = [[1, -1, 0], ["x", "NA", "-1"], [lift(5) / 2, NAN, lift(0)], [lift(1), lift(19) / 2, NAN], [True, False, True], [3, 7, -1]]
+    M = "-"
+    want = [[1, "x", lift(5) / 2, lift(1), True, 3], [M, M, M, M, False, M], [0, "-1", lift(0), NAN, True, -1]]
+    rows = []
+    wr = Record(None, {}, label="csv writer")
+    wr.native_methods["writerow"] = Native("writerow", lambda I_, row: rows.append(list(row)))
+    ext = {"builtins.open": Native("open", lambda I_, *a, **k: Record(None, {}, label="file")), "csv.writer": Native("writer", lambda I_, s_, **kw: wr)}
+    I = Interp(ctx.program, externals=ext, stubs={"pydrex.io.resolve_path": Native("resolve_path", lambda I_, p, *a: p),
+                                                    "pydrex.io.write_scsv_header": Native("write_scsv_header", lambda I_, *a, **k: None),
+                                                    "pydrex.io._parse_scsv_cell": Native("_parse_scsv_cell", lambda I_, *a, **k: None)})
+    try:
+        I.call(I.resolve("pydrex.io.save_scsv"), ("out.scsv", schema, data))
+    except RaiseSig as r:
+        ctx.ob("C16.substitution", "save_scsv on a six-column table", False, f"raises {r.exc.typename}", loc)
+        rows = None
+    if rows is not None:
+        names = [f["name"] for f in schema["fields"]]
+        ctx.ob("C16.substitution", "save_scsv: header row is the field names", bool(rows) and rows[0] == names, f"{rows[:1]}", loc)
+        body = rows[1:]
+        for r_, wrow in enumerate(want):
+            for k, w in enumerate(wrow):
+                got = body[r_][k] if r_ < len(body) and k < len(body[r_]) else "<no cell>"
+                same = (got is w) or (type(got) is type(w) and got == w) or (not isinstance(w, (str, bool)) and not isinstance(got, (str, bool)) and got != "<no cell>"
+                                                                             and not hasattr(got, "reason") and lift(got) == lift(w))
+                kind = "equal to the typed fill -> marker" if w == M else "not the fill -> written as is"
+                ctx.ob("C16.substitution", f"save_scsv: column {names[k]} ({schema['fields'][k].get('type')}), row {r_}: {kind}", same,
+                       f"wrote {got!r}, expected {w!r}", loc)
     pc = fns["_parse_scsv_cell"]
     ifs = [i for i in ast.walk(pc) if isinstance(i, ast.If) and "missingstr" in ast.unparse(i.test)]
     ok2 = bool(ifs) and all(any(isinstance(r, ast.Return) and "fillval" in ast.unparse(r) or (isinstance(r, ast.Return) and "nan" in ast.unparse(r)) for r in ast.walk(i)) for i in ifs)
